@@ -16,6 +16,9 @@ package main
 //   abrupt-close    connected through a TCP forwarder that resets every connection mid-workload
 //   tcp-stall       forwarder stops moving bytes (connection stays open)
 //   writer-vs-poll  no misbehaving peer at all: healthy replicas only, continuous writer
+//   ack-retention   the primary's log was rotated (a flush); replica S acknowledged sequence 1 once and
+//                   lags; two raw replicas read their streams and acknowledge continuously (every
+//                   Acknowledge runs the WAL retention); continuous writer
 // The workload is `puts` Put calls of `vsize` bytes (every 8th followed by a Get, every 16th by a
 // two-key transaction), each under a watchdog of `bound` seconds.
 // Observations (the model runner recomputes the =known verdicts from the generated call-graph
@@ -37,12 +40,14 @@ import (
 	"strconv"
 	"strings"
 	"sync"
+	"sync/atomic"
 	"time"
 
 	"github.com/KevoDB/kevo/pkg/replication"
 	rproto "github.com/KevoDB/kevo/proto/kevo/replication"
 	"google.golang.org/grpc"
 	"google.golang.org/grpc/credentials/insecure"
+	"google.golang.org/grpc/metadata"
 )
 
 func init() { register("C15", &Prop{Gen: genC15, Run: runC15}) }
@@ -153,6 +158,7 @@ type blockDiag struct {
 	kind       string // send | inversion | unknown
 	chain      []string
 	fa, fb     string
+	other      []string // chain of the goroutine that waits for the WAL mutex
 	sendChains [][]string
 }
 
@@ -198,6 +204,7 @@ func diagnoseBlock() blockDiag {
 	// lock-order inversion: the writer waits for a lock inside the observer callback while another
 	// goroutine waits for the WAL mutex inside the catch-up fetch
 	if writer != nil && writer.waitsForLock() && len(d.chain) > 0 {
+		best := 0
 		for i := range stacks {
 			g := &stacks[i]
 			if g == writer || !g.waitsForLock() {
@@ -208,11 +215,13 @@ func diagnoseBlock() blockDiag {
 				continue
 			}
 			leaf := c[len(c)-1]
-			if leaf == "wal.WAL.GetNextSequence" || leaf == "wal.WAL.GetEntriesFrom" {
+			// waits for the WAL mutex; of several such goroutines report the one with the longest chain
+			if strings.HasPrefix(leaf, "wal.WAL.") && len(c) > best {
+				best = len(c)
 				d.kind = "inversion"
 				d.fa = d.chain[len(d.chain)-1]
 				d.fb = leaf
-				return d
+				d.other = c
 			}
 		}
 	}
@@ -222,6 +231,8 @@ func diagnoseBlock() blockDiag {
 // ---- misbehaving peers --------------------------------------------------------------------
 
 type rawPeer struct {
+	cl     rproto.WALReplicationServiceClient
+	sid    string
 	conn   *grpc.ClientConn
 	cancel context.CancelFunc
 	addr   string // the listener address it announced (identifies it in the topology)
@@ -243,13 +254,36 @@ func dialRaw(target, announce string) (*rawPeer, rproto.WALReplicationService_St
 		conn.Close()
 		return nil, nil, err
 	}
-	hdrOK := withTimeout(10*time.Second, func() { st.Header() })
+	sid := ""
+	hdrOK := withTimeout(10*time.Second, func() {
+		if md, err := st.Header(); err == nil {
+			if v := md.Get("session-id"); len(v) > 0 {
+				sid = v[0]
+			}
+		}
+	})
 	if !hdrOK {
 		cancel()
 		conn.Close()
 		return nil, nil, fmt.Errorf("no stream header within 10s")
 	}
-	return &rawPeer{conn: conn, cancel: cancel, addr: announce}, st, nil
+	return &rawPeer{cl: cl, sid: sid, conn: conn, cancel: cancel, addr: announce}, st, nil
+}
+
+// ack sends one acknowledgement the way the replica does (session id in the metadata)
+func (p *rawPeer) ack(upTo uint64) error {
+	ctx, cancel := context.WithTimeout(metadata.NewOutgoingContext(context.Background(), metadata.Pairs("session-id", p.sid)), 10*time.Second)
+	defer cancel()
+	_, err := p.cl.Acknowledge(ctx, &rproto.Ack{AcknowledgedUpTo: upTo})
+	return err
+}
+
+func drain(st rproto.WALReplicationService_StreamWALClient) {
+	for {
+		if _, err := st.Recv(); err != nil {
+			return
+		}
+	}
 }
 
 func (p *rawPeer) close() {
@@ -416,7 +450,47 @@ func runC15(cs *Case, out func(string)) {
 		target = proxy.addr()
 	}
 	expectEvict := false
-	if probe != "writer-vs-poll" {
+	var ackers []*rawPeer
+	stopAcks := make(chan struct{})
+	var ackSeq atomic.Uint64
+	defer func() {
+		close(stopAcks)
+		for _, a := range ackers {
+			a.close()
+		}
+	}()
+	if probe == "ack-retention" {
+		// a rotated log: the directory holds an old log file next to the current one
+		op("flush", func() error { return pe.FlushImMemTables() })
+		for i, name := range []string{"S", "H1", "H2"} {
+			a, st, err := dialRaw(paddr, fmt.Sprintf("127.0.0.1:%d", 2+i))
+			if err != nil {
+				out("IMPL-ERROR peer " + name + ": " + err.Error())
+				return
+			}
+			ackers = append(ackers, a)
+			go drain(st)
+			if err := a.ack(1); err != nil {
+				out("NOTE first acknowledgement of " + name + " failed: " + err.Error())
+			}
+		}
+		ackSeq.Store(1)
+		for _, a := range ackers[1:] { // S never acknowledges again
+			a := a
+			go func() {
+				for {
+					select {
+					case <-stopAcks:
+						return
+					default:
+					}
+					a.ack(ackSeq.Load())
+					time.Sleep(time.Millisecond)
+				}
+			}()
+		}
+	}
+	if probe != "writer-vs-poll" && probe != "ack-retention" {
 		var st rproto.WALReplicationService_StreamWALClient
 		peer, st, err = dialRaw(target, announce)
 		if err != nil {
@@ -491,7 +565,10 @@ func runC15(cs *Case, out func(string)) {
 				return t.Commit()
 			})
 		}
-		if probe == "writer-vs-poll" && (time.Since(t0) > 4*time.Second || i >= 4000) {
+		if probe == "ack-retention" {
+			ackSeq.Store(uint64(nops))
+		}
+		if (probe == "writer-vs-poll" || probe == "ack-retention") && (time.Since(t0) > 4*time.Second || i >= 4000) {
 			break
 		}
 	}
@@ -509,6 +586,7 @@ func runC15(cs *Case, out func(string)) {
 		case "inversion":
 			out(fmt.Sprintf("D op=%s inversion=known", blockedOp))
 			out("NOTE INVERSION " + d.fa + " " + d.fb)
+			out("NOTE OTHER " + strings.Join(d.other, " "))
 			out("NOTE CHAIN " + strings.Join(d.chain, " "))
 		default:
 			out(fmt.Sprintf("U op=%s blocked for an unrecognised reason", blockedOp))
@@ -623,7 +701,7 @@ func runC15(cs *Case, out func(string)) {
 		}
 	}
 	nt := 0
-	if bytesWritten > 256<<10 || blocked {
+	if bytesWritten > 256<<10 || blocked || (probe == "ack-retention" && nops > 1000) {
 		nt = 1
 	}
 	out(fmt.Sprintf("META probe=%s healthy=%d ops=%d blocked=%v mb=%.1f nontrivial=%d", probe, nHealthy, nops, blocked, float64(bytesWritten)/(1<<20), nt))
@@ -631,7 +709,7 @@ func runC15(cs *Case, out func(string)) {
 
 func genC15(w *bufio.Writer, seed int64, n int, tier string) {
 	r := rand.New(rand.NewSource(seed*104729 + 15))
-	kinds := []string{"abrupt-close", "stall-idle", "tcp-stall", "no-ack", "slow-apply", "stall-reader", "writer-vs-poll"}
+	kinds := []string{"ack-retention", "stall-idle", "abrupt-close", "tcp-stall", "no-ack", "slow-apply", "stall-reader", "writer-vs-poll"}
 	for i := 0; i < n; i++ {
 		k := kinds[i%len(kinds)]
 		healthy := 1
@@ -644,6 +722,9 @@ func genC15(w *bufio.Writer, seed int64, n int, tier string) {
 		}
 		if k == "writer-vs-poll" && healthy == 0 {
 			healthy = 1
+		}
+		if k == "ack-retention" {
+			puts, vsize, healthy = 100000, 64, 0 // a writer loop of up to 4 s against three raw replicas
 		}
 		if k == "stall-idle" {
 			puts = 40 // fills the stream's flow-control window, far from filling the send queue
